@@ -92,6 +92,22 @@ func simCall(name string, args ...ast.Expr) *ast.CallExpr {
 	return &ast.CallExpr{Fun: &ast.SelectorExpr{X: ast.NewIdent("__sim"), Sel: ast.NewIdent(name)}, Args: args}
 }
 
+// lockKey: an expression for the identity of the mutex a Lock / Unlock call works on
+// (the pointer itself, or the address of the addressable operand), and 1 for the reader side.
+func (r *rewriter) lockKey(recv ast.Expr, name string) (ast.Expr, ast.Expr) {
+	var key ast.Expr = recv
+	if t := r.p.TypesInfo.TypeOf(recv); t != nil {
+		if _, isPtr := t.Underlying().(*types.Pointer); !isPtr {
+			key = &ast.UnaryExpr{Op: token.AND, X: recv}
+		}
+	}
+	kind := 0
+	if name == "RLock" || name == "RUnlock" {
+		kind = 1
+	}
+	return key, intLit(kind)
+}
+
 func intLit(i int) ast.Expr { return &ast.BasicLit{Kind: token.INT, Value: strconv.Itoa(i)} }
 
 func (r *rewriter) yield(p token.Pos, kind int) ast.Stmt {
@@ -283,6 +299,7 @@ func (r *rewriter) stmtList(list []ast.Stmt) []ast.Stmt {
 			break
 		}
 		replaced := false
+		var after ast.Stmt
 		switch x := inner.(type) {
 		case *ast.RangeStmt:
 			if t := r.p.TypesInfo.TypeOf(x.X); t != nil {
@@ -292,9 +309,13 @@ func (r *rewriter) stmtList(list []ast.Stmt) []ast.Stmt {
 			}
 		case *ast.DeferStmt:
 			// defer mu.Unlock()  ->  defer func() { __sim.LockReleasing(); mu.Unlock() }()
-			if _, typ, name := r.syncMethod(x.Call); (typ == "Mutex" || typ == "RWMutex") && (name == "Unlock" || name == "RUnlock") && len(x.Call.Args) == 0 {
+			if recv, typ, name := r.syncMethod(x.Call); (typ == "Mutex" || typ == "RWMutex") && (name == "Unlock" || name == "RUnlock") && len(x.Call.Args) == 0 {
+				key, kind := r.lockKey(recv, name)
 				x.Call = &ast.CallExpr{Fun: &ast.FuncLit{Type: &ast.FuncType{Params: &ast.FieldList{}}, Body: &ast.BlockStmt{List: []ast.Stmt{
-					&ast.ExprStmt{X: simCall("LockReleasing")}, &ast.ExprStmt{X: x.Call}}}}}
+					&ast.ExprStmt{X: simCall("DeferredUnlock", key, kind, intLit(-1))}, &ast.ExprStmt{X: simCall("LockReleasing", key, kind)}, &ast.ExprStmt{X: x.Call}}}}}
+				// registered right AFTER the defer statement (no yield in between): the books
+				// never claim a deferred Unlock that is not on the defer stack yet
+				after = &ast.ExprStmt{X: simCall("DeferredUnlock", key, kind, intLit(1))}
 				r.changed = true
 			}
 		case *ast.ExprStmt:
@@ -306,15 +327,46 @@ func (r *rewriter) stmtList(list []ast.Stmt) []ast.Stmt {
 					if name == "RLock" {
 						try = "TryRLock"
 					}
-					out = append(out, &ast.ForStmt{
-						Cond: &ast.UnaryExpr{Op: token.NOT, X: &ast.CallExpr{Fun: &ast.SelectorExpr{X: recv, Sel: ast.NewIdent(try)}}},
-						Body: &ast.BlockStmt{List: []ast.Stmt{&ast.ExprStmt{X: simCall("YieldSpin", intLit(r.newSite(x.Pos(), kLockSpin)))}}},
-					})
+					var cond ast.Expr = &ast.UnaryExpr{Op: token.NOT, X: &ast.CallExpr{Fun: &ast.SelectorExpr{X: recv, Sel: ast.NewIdent(try)}}}
+					if typ == "RWMutex" {
+						// Go's RWMutex prefers writers: a goroutine blocked in Lock keeps new readers
+						// out. A TryLock loop announces nothing, so the simulator keeps the book:
+						// a writer registers while it waits, a reader also waits for waiting writers.
+						var key ast.Expr = recv
+						if t := r.p.TypesInfo.TypeOf(recv); t != nil {
+							if _, isPtr := t.Underlying().(*types.Pointer); !isPtr {
+								key = &ast.UnaryExpr{Op: token.AND, X: recv}
+							}
+						}
+						if name == "Lock" {
+							out = append(out, &ast.ExprStmt{X: simCall("WriterWaiting", key, intLit(1))})
+						} else {
+							cond = &ast.BinaryExpr{Op: token.LOR, X: simCall("WriterIsWaiting", key), Y: cond}
+						}
+						out = append(out, &ast.ForStmt{
+							Cond: cond,
+							Body: &ast.BlockStmt{List: []ast.Stmt{&ast.ExprStmt{X: simCall("YieldSpin", intLit(r.newSite(x.Pos(), kLockSpin)))}}},
+						})
+						if name == "Lock" {
+							out = append(out, &ast.ExprStmt{X: simCall("WriterWaiting", key, intLit(-1))})
+						}
+					} else {
+						out = append(out, &ast.ForStmt{
+							Cond: cond,
+							Body: &ast.BlockStmt{List: []ast.Stmt{&ast.ExprStmt{X: simCall("YieldSpin", intLit(r.newSite(x.Pos(), kLockSpin)))}}},
+						})
+					}
 					// the simulator never stops a task for good while it holds a lock of the library
-					out = append(out, &ast.ExprStmt{X: simCall("LockAcquired")})
+					{
+						key, kind := r.lockKey(recv, name)
+						out = append(out, &ast.ExprStmt{X: simCall("LockAcquired", key, kind)})
+					}
 					replaced = true
 				case (typ == "Mutex" || typ == "RWMutex") && (name == "Unlock" || name == "RUnlock") && len(call.Args) == 0 && inner == s:
-					out = append(out, r.yield(inner.Pos(), kStmt), &ast.ExprStmt{X: simCall("LockReleasing")}, s)
+					{
+						key, kind := r.lockKey(recv, name)
+						out = append(out, r.yield(inner.Pos(), kStmt), &ast.ExprStmt{X: simCall("LockReleasing", key, kind)}, s)
+					}
 					r.changed = true
 					replaced = true
 				case typ == "Once" && name == "Do" && inner == s:
@@ -348,6 +400,9 @@ func (r *rewriter) stmtList(list []ast.Stmt) []ast.Stmt {
 			}
 		}
 		out = append(out, s)
+		if after != nil {
+			out = append(out, after)
+		}
 	}
 	return out
 }
